@@ -211,7 +211,8 @@ Proof.
         destruct (_ && _ && _) in HY.
         + injection HY as <-. left. apply in_rev. exact Hr.
         + destruct (_ && _) in HY.
-          * injection HY as <-. apply in_rev in Hr. destruct Hr as [Hr|Hr]; [right; left; exact Hr|left; exact Hr].
+          * injection HY as <-. assert (Hr' : In r (x :: acc)) by (apply in_rev; exact Hr).
+            destruct Hr' as [Hr'|Hr']; [right; left; exact Hr'|left; exact Hr'].
           * destruct (IHl _ _ _ _ _ HY r Hr) as [H|H]; [destruct H as [H|H]; [right; left; exact H|left; exact H]|right; right; exact H]. }
     intros r Hr. destruct (Hsub _ _ _ _ _ _ H1 r Hr) as [[]|Hin].
     apply filter_In in Hin. destruct Hin as [Hin Hp]. unfold p in Hp.
